@@ -2,8 +2,10 @@
   GeoModel.GeodesyNum — a rational engine for `Geodesy.Trig`: the transcendental functions as
   truncated series / Newton iterations on a 2^-100 grid (regime T of DESIGN.md §3.2).
 
-  Accuracy (not proved; ample against the 1e-9 comparison tolerance): sin, cos, sqrt to about
-  1e-29 absolute; asin, atan2 to about 1e-27 away from |x| = 1 and 1e-14 at it. `ln` is not
+  Accuracy: proved in GeoProofs/Lemmas/C16Q*.lean for sin, cos (2^-92 on [-piQ, piQ), 2^-91 up to
+  |x| = 1000), sqrt (one grid step) and `piQ` (2e-40); asin through the a posteriori certificate
+  `asinCert` below (2^-42 given the certificate; atan2 likewise, 2^-41 against `Complex.arg`; the true
+  errors are about 1e-27 away from |x| = 1 and 1e-14 at it). `ln` is not
   implemented (the Rhumb formulas are not evaluated by the driver).
 -/
 import GeoModel.Geodesy
@@ -66,10 +68,30 @@ def atan2Q (y x : Rat) : Rat :=
     let a := asinQ (x / r)          -- angle from the y axis
     if y > 0 then piQ / 2 - a else -piQ / 2 + a
 
+/-! ### a posteriori certificate for the Newton arcsine
+
+The convergence of the Newton iteration in `asinQ` is not proved. Instead its *result* is checked with
+the engine's own (proved: GeoProofs/Lemmas/C16Q*.lean) sine: the result lies in the right quarter turn up
+to `asinTol` and its sine is within `asinResTol` of the target. `ratAsin_close_partial` /
+`haversine_distance_engine_close_partial` turn this into a bound against `Real.arcsin`; the driver
+evaluates the certificate on every Haversine pair and reports a failure as a model mismatch. -/
+
+def asinTol : Rat := 1 / ((2 ^ 44 : Nat) : Rat)
+def asinResTol : Rat := 1 / ((2 ^ 90 : Nat) : Rat)
+
+def asinCert (x : Rat) : Bool :=
+  let a := asinQ x
+  decide ((if 0 ≤ x then -asinTol else -(piQ / 2) - asinTol) ≤ a) &&
+  decide (a ≤ (if x ≤ 0 then asinTol else piQ / 2 + asinTol)) &&
+  decide (rabs (sinQ a - x) ≤ asinResTol)
+
 def ratTrig : Trig Rat :=
   { sin := sinQ, cos := cosQ, tan := fun x => sinQ x / cosQ x, asin := asinQ, atan2 := atan2Q,
     sqrt := sqrtQ, hypot := fun x y => sqrtQ (x * x + y * y), ln := fun _ => 0,
     abs := rabs, toRad := fun d => rd (d * piQ / 180), toDeg := fun r => rd (r * 180 / piQ),
     pi := piQ, lt := fun a b => decide (a < b), ofRat := id }
+
+/-- the certificate for the arcsine evaluated inside `havDistance ratTrig R a b` -/
+def havCert (a b : P2 Rat) : Bool := asinCert (sqrtQ (havH ratTrig a b))
 
 end Geo.GeodesyNum
